@@ -75,7 +75,8 @@ def stdCmp (op : String) (a b : Val) : Val :=
       if op == "Lt" then .bool (x < y) else if op == "LtE" then .bool (x ≤ y)
       else if op == "Gt" then .bool (x > y) else if op == "GtE" then .bool (x ≥ y)
       else if op == "Eq" then .bool (x == y) else if op == "NotEq" then .bool (x != y) else .none
-  | _, _ => .none
+  | _, _ =>     -- `==` / `!=` between arbitrary objects never fail in Python (structural here)
+      if op == "Eq" then .bool (a == b) else if op == "NotEq" then .bool (a != b) else .none
 
 def stdGetattr (x : Val) (a : String) : Val :=
   match x with
